@@ -3144,6 +3144,11 @@ event_callback_activate_nolock_(struct event_base *base,
 
 	event_queue_insert_active(base, evcb);
 
+	/* as for events: a callback more urgent than the running one makes the
+	 * loop start over from the highest priority */
+	if (evcb->evcb_pri < base->event_running_priority)
+		base->event_continue = 1;
+
 	if (EVBASE_NEED_NOTIFY(base))
 		evthread_notify_base(base);
 
